@@ -276,7 +276,110 @@ func typedPaths(dir string, seed int64, tier string, repM *Report, repU *Report)
 			}
 		}
 	}
+	typedPathsTargeted(repU)
 	wT.flush()
+}
+
+// paths for targets that already hold elements, and for sb.Tuple targets (explicit expectations)
+func typedPathsTargeted(repU *Report) {
+	type utap struct {
+		path string
+		kind sb.Kind
+	}
+	run := func(target any, ts []sb.Token) ([]utap, error) {
+		var got []utap
+		err := guard(func() error {
+			return copyBudget(tokensFrom(ts), sb.TapUnmarshal(sb.Ctx{}, target, func(ctx sb.Ctx, tok sb.Token, _ reflect.Value) {
+				got = append(got, utap{ctx.Path.String(), tok.Kind})
+			}))
+		})
+		return got, err
+	}
+	leafPaths := func(got []utap, k sb.Kind) []string {
+		var out []string
+		for _, g := range got {
+			if g.kind == k {
+				if len(out) == 0 || out[len(out)-1] != g.path {
+					out = append(out, g.path)
+				}
+			}
+		}
+		return out
+	}
+	check := func(name string, got []string, want []string, err error) {
+		repU.Evaluations++
+		repU.count("c17:targeted")
+		if err != nil {
+			repU.violate("C17", "targeted-path-error", fmt.Sprintf("%s: %v", name, err), name)
+			return
+		}
+		if strings.Join(got, ",") != strings.Join(want, ",") {
+			repU.violate("C17", "unmarshal-tap-path", fmt.Sprintf("%s: taps saw paths %v, the elements' paths are %v", name, got, want), name)
+		}
+	}
+	arrOf := func(xs ...int) []sb.Token {
+		ts := []sb.Token{tokK(sb.KindArray)}
+		for _, x := range xs {
+			ts = append(ts, tokI(x))
+		}
+		return append(ts, tokK(sb.KindArrayEnd))
+	}
+	// a slice that already holds elements: new elements are appended, their paths continue
+	{
+		s := []int{1, 2, 3}
+		got, err := run(&s, arrOf(30, 40))
+		check("append to []int{1,2,3}", leafPaths(got, sb.KindInt), []string{"/3", "/4"}, err)
+		type H struct{ Items []int }
+		h := H{Items: []int{7, 8}}
+		got, err = run(&h, append(append([]sb.Token{tokK(sb.KindObject), tokS("Items")}, arrOf(30, 40, 50)...), tokK(sb.KindObjectEnd)))
+		check("append to struct field Items (len 2)", leafPaths(got, sb.KindInt), []string{"/Items/2", "/Items/3", "/Items/4"}, err)
+		// error path of a mismatch planted in the appended part
+		bad := append(append([]sb.Token{tokK(sb.KindObject), tokS("Items")}, []sb.Token{tokK(sb.KindArray), tokI(1), tokS("x"), tokK(sb.KindArrayEnd)}...), tokK(sb.KindObjectEnd))
+		h2 := H{Items: []int{7, 8, 9}}
+		_, e := run(&h2, bad)
+		var ep sb.Path
+		repU.Evaluations++
+		if e == nil || !errors.As(e, &ep) || ep.String() != "/Items/4" {
+			repU.violate("C17", "error-path", fmt.Sprintf("mismatch at the 2nd appended element of a slice holding 3: error path %q, want /Items/4 (%v)", ep.String(), e), "append error path")
+		}
+	}
+	// sb.Tuple targets, pre-sized with placeholders and empty
+	{
+		tupStream := []sb.Token{tokK(sb.KindTuple), tokI(1), tokI(2), tokI(3), tokK(sb.KindTupleEnd)}
+		t1 := sb.Tuple{0, 0, 0}
+		got, err := run(&t1, tupStream)
+		check("sb.Tuple{0,0,0}", leafPaths(got, sb.KindInt), []string{"/0", "/1", "/2"}, err)
+		var t2 sb.Tuple
+		got, err = run(&t2, tupStream)
+		check("empty sb.Tuple", leafPaths(got, sb.KindInt), []string{"/0", "/1", "/2"}, err)
+		t3 := sb.Tuple{0}
+		got, err = run(&t3, tupStream)
+		check("sb.Tuple{0} (one placeholder, two appended)", leafPaths(got, sb.KindInt), []string{"/0", "/1", "/2"}, err)
+		type W struct{ Tup sb.Tuple }
+		w := W{Tup: sb.Tuple{0, 0, 0}}
+		got, err = run(&w, append(append([]sb.Token{tokK(sb.KindObject), tokS("Tup")}, tupStream...), tokK(sb.KindObjectEnd)))
+		check("struct field sb.Tuple{0,0,0}", leafPaths(got, sb.KindInt), []string{"/Tup/0", "/Tup/1", "/Tup/2"}, err)
+		bad := []sb.Token{tokK(sb.KindTuple), tokI(1), tokS("x"), tokK(sb.KindTupleEnd)}
+		t4 := sb.Tuple{0, 0}
+		_, e := run(&t4, bad)
+		var ep sb.Path
+		repU.Evaluations++
+		if e == nil || !errors.As(e, &ep) || ep.String() != "/1" {
+			repU.violate("C17", "error-path", fmt.Sprintf("mismatch at item 1 of an sb.Tuple: error path %q, want /1 (%v)", ep.String(), e), "tuple error path")
+		}
+		// typed tuple
+		tt := sb.TypedTuple{Types: []reflect.Type{reflect.TypeOf(0), reflect.TypeOf(0), reflect.TypeOf(0)}}
+		got, err = run(&tt, tupStream)
+		check("sb.TypedTuple", leafPaths(got, sb.KindInt), []string{"/0", "/1", "/2"}, err)
+		// arrays: elements in place
+		a := [3]int{}
+		got, err = run(&a, arrOf(1, 2, 3))
+		check("[3]int", leafPaths(got, sb.KindInt), []string{"/0", "/1", "/2"}, err)
+		// maps: values under their keys
+		m := map[string]int{"old": 1}
+		got, err = run(&m, []sb.Token{tokK(sb.KindMap), tokS("a"), tokI(1), tokS("b"), tokI(2), tokK(sb.KindMapEnd)})
+		check("map[string]int", leafPaths(got, sb.KindInt), []string{"/a", "/b"}, err)
+	}
 }
 
 // types for path cases: deeper and wider than the general grammar, few maps with exotic keys
